@@ -100,7 +100,7 @@ type c20Call struct {
 	Kind  string   `json:"kind"` // prog encode clear bytes
 	Prog  *c20Prog `json:"prog,omitempty"`
 	Root  int      `json:"root,omitempty"`
-	Seed  uint64   `json:"seed,omitempty"`
+	Seed  uint64   `json:"seed,omitempty,string"`
 	Craft string   `json:"craft,omitempty"`
 	Tag   int      `json:"tag,omitempty"`
 }
@@ -544,7 +544,7 @@ func c20CheckDecoderReuse(c *h.Ctx, seedA, seedB uint64) {
 
 type c20DecMsg struct {
 	Root  int    `json:"root"` // index in c20DecRoots
-	Seed  uint64 `json:"seed"`
+	Seed  uint64 `json:"seed,string"`
 	Tag   int    `json:"tag"`
 	Shape string `json:"shape,omitempty"` // "old" / "new": the wire form of a c20Gated under version 1.0 / 1.4, decoded as c20Gated
 }
@@ -623,7 +623,7 @@ func c20RunDecCase(tt *c20Types, dc c20DecCase) (input []byte, obs []string, ok 
 
 type c20SynMsg struct {
 	Root int    `json:"root"`
-	Seed uint64 `json:"seed"`
+	Seed uint64 `json:"seed,string"`
 	Tag  int    `json:"tag"`
 }
 
